@@ -7,6 +7,7 @@ import Mathlib.Tactic.Ring
 import Mathlib.Data.Rat.Floor
 import Mathlib.Tactic.FieldSimp
 import Mathlib.Tactic.Positivity
+import Mathlib.Analysis.Real.Sqrt
 
 namespace PolyplyVerif.Proofs.Restraints
 open PolyplyVerif.Restraints
@@ -556,5 +557,252 @@ theorem ring_dfs_tree (n : Nat) (hn : 3 ≤ n) :
   unfold closingPair
   rw [chainEdges_getLast (m + 1) 0]
   simp [List.range'_succ, chainEdges]
+
+
+/-! ### depth-first traversal of an arbitrary cycle -/
+
+/-- `nb x` lists exactly the two cycle neighbours `p` and `s` of `x`, in either order -/
+def okNbrs (nb : Nat → List Nat) (p x s : Nat) : Prop := nb x = [p, s] ∨ nb x = [s, p]
+
+/-- every node of the remaining arc `x :: suf` has its predecessor and successor on the cycle as its
+two neighbours; the successor of the last node is the root `v0` -/
+def chainOk (nb : Nat → List Nat) (v0 : Nat) : Nat → List Nat → Prop
+  | _, [] => True
+  | p, [x] => okNbrs nb p x v0
+  | p, x :: y :: rest => okNbrs nb p x y ∧ chainOk nb v0 x (y :: rest)
+
+theorem dfs_cycle_from (nb : Nat → List Nat) (v0 : Nat) (suf : List Nat) :
+    ∀ (pre : List Nat) (p x : Nat) (frames : List (Nat × List Nat)) (visited : List Nat)
+      (out : List (Nat × Nat)) (fuel : Nat),
+    p ∈ pre → v0 ∈ pre → chainOk nb v0 p (x :: suf) → (x :: suf).Nodup →
+    (∀ y ∈ pre ++ [x], y ∈ visited) → (∀ y ∈ suf, y ∉ visited) →
+    (∀ f ∈ frames, ∀ c ∈ f.2, c ∈ pre ++ [x] ++ suf) →
+    3 * (suf.length + 1) + frameCost frames ≤ fuel →
+    (dfsRun nb fuel ⟨(x, nb x) :: frames, visited, out⟩).out = (chainEdges (x :: suf)).reverse ++ out := by
+  induction suf with
+  | nil =>
+    intro pre p x frames visited out fuel hp hv0 hok _ hin _ hfr hfuel
+    obtain ⟨f, rfl⟩ : ∃ f, fuel = f + 3 := ⟨fuel - 3, by simp at hfuel; omega⟩
+    have hpv : p ∈ visited := hin p (List.mem_append_left _ hp)
+    have hvv : v0 ∈ visited := hin v0 (List.mem_append_left _ hv0)
+    have hrun : dfsRun nb (f + 3) ⟨(x, nb x) :: frames, visited, out⟩ = dfsRun nb f ⟨frames, visited, out⟩ := by
+      rcases hok with h | h
+      · rw [h, step_skip _ _ _ _ _ _ _ _ hpv, step_skip _ _ _ _ _ _ _ _ hvv, step_pop]
+      · rw [h, step_skip _ _ _ _ _ _ _ _ hvv, step_skip _ _ _ _ _ _ _ _ hpv, step_pop]
+    rw [hrun, dfs_unwind]
+    · simp [chainEdges]
+    · intro f' hf' c hc
+      have := hfr f' hf' c hc
+      simp only [List.append_nil] at this
+      exact hin c this
+    · simp at hfuel; omega
+  | cons y rest ih =>
+    intro pre p x frames visited out fuel hp hv0 hok hnd hin hout hfr hfuel
+    obtain ⟨hokx, hokrest⟩ := hok
+    have hpv : p ∈ visited := hin p (List.mem_append_left _ hp)
+    have hyv : y ∉ visited := hout y List.mem_cons_self
+    have hnd' : (y :: rest).Nodup := (List.nodup_cons.mp hnd).2
+    have hxy : x ∉ y :: rest := (List.nodup_cons.mp hnd).1
+    have hyr : y ∉ rest := (List.nodup_cons.mp hnd').1
+    simp only [List.length_cons] at hfuel
+    -- the common continuation
+    have key : ∀ (f : Nat) (left : List Nat), (∀ c ∈ left, c ∈ pre) → 3 * (rest.length + 1) + (left.length + 1 + frameCost frames) ≤ f →
+        (dfsRun nb f ⟨(y, nb y) :: (x, left) :: frames, y :: visited, (x, y) :: out⟩).out
+          = (chainEdges (x :: y :: rest)).reverse ++ out := by
+      intro f left hleft hf
+      rw [ih (pre ++ [x]) x y ((x, left) :: frames) (y :: visited) ((x, y) :: out) f
+        (by simp) (List.mem_append_left _ hv0) hokrest hnd']
+      · simp [chainEdges]
+      · intro z hz
+        rcases List.mem_append.mp hz with h | h
+        · exact List.mem_cons_of_mem _ (hin z h)
+        · have : z = y := by simpa using h
+          subst this; exact List.mem_cons_self
+      · intro z hz hmem
+        rcases List.mem_cons.mp hmem with h | h
+        · subst h; exact hyr hz
+        · exact hout z (List.mem_cons_of_mem _ hz) h
+      · intro f' hf' c hc
+        rcases List.mem_cons.mp hf' with h | h
+        · subst h
+          have := hleft c hc
+          simp [this]
+        · have := hfr f' h c hc
+          simp only [List.mem_append, List.mem_cons, List.not_mem_nil, or_false] at this ⊢
+          tauto
+      · simp only [frameCost]; omega
+    rcases hokx with h | h
+    · obtain ⟨f, rfl⟩ : ∃ f, fuel = f + 2 := ⟨fuel - 2, by omega⟩
+      rw [h, step_skip _ _ _ _ _ _ _ _ hpv, step_push _ _ _ _ _ _ _ _ hyv]
+      exact key f [] (by simp) (by simp; omega)
+    · obtain ⟨f, rfl⟩ : ∃ f, fuel = f + 1 := ⟨fuel - 1, by omega⟩
+      rw [h, step_push _ _ _ _ _ _ _ _ hyv]
+      exact key f [p] (by simpa using hp) (by simp; omega)
+
+/-- Depth-first traversal of ANY cycle: nodes `v0 :: v1 :: rest` listed around the cycle from the root
+`v0` in the direction of the root's first neighbour `v1`, every node having exactly its two cycle
+neighbours in either adjacency order.  The traversal is the Hamiltonian path along the listing. -/
+theorem dfsEdges_cycle (nb : Nat → List Nat) (v0 v1 : Nat) (rest : List Nat) (last : Nat) (fuel : Nat)
+    (hnd : (v0 :: v1 :: rest).Nodup) (h0 : nb v0 = [v1, last]) (hlast : last ∈ v1 :: rest)
+    (hok : chainOk nb v0 v0 (v1 :: rest)) (hf : 3 * (rest.length + 2) ≤ fuel) :
+    dfsEdges nb fuel v0 = chainEdges (v0 :: v1 :: rest) := by
+  unfold dfsEdges
+  obtain ⟨f, rfl⟩ : ∃ f, fuel = f + 1 := ⟨fuel - 1, by omega⟩
+  have hv1 : v1 ∉ [v0] := by
+    have := (List.nodup_cons.mp hnd).1
+    simp only [List.mem_cons, not_or] at this
+    simp; exact fun h => this.1 h.symm
+  rw [h0, step_push _ _ _ _ _ _ _ _ hv1]
+  rw [dfs_cycle_from nb v0 rest [v0] v0 v1 [(v0, [last])] [v1, v0] [(v0, v1)] f (by simp) (by simp) hok
+    (List.nodup_cons.mp hnd).2]
+  · simp [chainEdges]
+  · intro y hy; simp at hy; rcases hy with h | h <;> simp [h]
+  · intro y hy hmem
+    have h1 := (List.nodup_cons.mp hnd).1
+    have h2 := (List.nodup_cons.mp (List.nodup_cons.mp hnd).2).1
+    simp only [List.mem_cons, List.not_mem_nil, or_false] at hmem
+    rcases hmem with h | h
+    · subst h; exact h2 hy
+    · subst h; exact h1 (List.mem_cons_of_mem _ hy)
+  · intro f' hf' c hc
+    simp only [List.mem_singleton] at hf'
+    subst hf'
+    simp only [List.mem_singleton] at hc
+    subst hc
+    simp only [List.mem_append, List.mem_cons, List.not_mem_nil, or_false]
+    rcases List.mem_cons.mp hlast with h | h
+    · simp [h]
+    · exact Or.inr h
+  · simp [frameCost]; omega
+
+
+theorem chainEdges_getLast_snd (rest : List Nat) : ∀ a b,
+    ((chainEdges (a :: b :: rest)).getLast?).map (·.2) = some ((b :: rest).getLast (List.cons_ne_nil _ _)) := by
+  induction rest with
+  | nil => intro a b; simp [chainEdges]
+  | cons c r ih =>
+    intro a b
+    have h := ih b c
+    simp only [chainEdges] at h ⊢
+    rw [List.getLast?_cons_cons, h]
+    simp [List.getLast_cons]
+
+theorem chainOk_last (nb : Nat → List Nat) (v0 : Nat) (suf : List Nat) : ∀ p x,
+    chainOk nb v0 p (x :: suf) → v0 ∈ nb ((x :: suf).getLast (List.cons_ne_nil _ _)) := by
+  induction suf with
+  | nil =>
+    intro p x h
+    rcases h with h | h <;> simp [h]
+  | cons y rest ih =>
+    intro p x h
+    have := ih x y h.2
+    simpa [List.getLast_cons] using this
+
+/-- `list(search_tree.edges)` of any cycle grown depth first, and the pair `_initialize_cylces` restrains -/
+theorem cycle_dfs_tree (nb : Nat → List Nat) (v0 v1 : Nat) (rest : List Nat) (fuel : Nat)
+    (hnd : (v0 :: v1 :: rest).Nodup)
+    (h0 : nb v0 = [v1, (v1 :: rest).getLast (List.cons_ne_nil _ _)])
+    (hok : chainOk nb v0 v0 (v1 :: rest)) (hf : 3 * (rest.length + 2) ≤ fuel) :
+    searchTreeEdges "dfs_tree" nb fuel v0 = chainEdges (v0 :: v1 :: rest) ∧
+    closingPair (searchTreeEdges "dfs_tree" nb fuel v0) = some (v0, (v1 :: rest).getLast (List.cons_ne_nil _ _)) := by
+  have h1 : searchTreeEdges "dfs_tree" nb fuel v0 = chainEdges (v0 :: v1 :: rest) := by
+    unfold searchTreeEdges
+    rw [if_pos (by decide), dfsEdges_cycle nb v0 v1 rest _ fuel hnd h0 (List.getLast_mem _) hok hf]
+    exact treeEdgeList_chain v0 _ hnd
+  refine ⟨h1, ?_⟩
+  rw [h1]
+  have h2 := chainEdges_getLast_snd rest v0 v1
+  unfold closingPair
+  cases hl : (chainEdges (v0 :: v1 :: rest)).getLast? with
+  | none => simp [hl] at h2
+  | some l =>
+    simp only [hl, Option.map_some, Option.some.injEq] at h2
+    simp [chainEdges, h2]
+
+
+/-! ### reading of the square-free predicates over the reals -/
+
+/-- `distLe s r` is `√s ≤ r` over the reals -/
+theorem distLe_iff_sqrt (s r : ℚ) : distLe s r ↔ Real.sqrt (s : ℝ) ≤ (r : ℝ) := by
+  unfold distLe
+  rw [Real.sqrt_le_iff]
+  constructor
+  · rintro ⟨h1, h2⟩
+    refine ⟨by exact_mod_cast h1, ?_⟩
+    have : (s : ℝ) ≤ (r : ℝ) * (r : ℝ) := by exact_mod_cast h2
+    nlinarith
+  · rintro ⟨h1, h2⟩
+    refine ⟨by exact_mod_cast h1, ?_⟩
+    have : (s : ℝ) ≤ (r : ℝ) * (r : ℝ) := by nlinarith
+    exact_mod_cast this
+
+/-- `distGe s r` is `r ≤ √s` over the reals -/
+theorem distGe_iff_sqrt (s r : ℚ) : distGe s r ↔ (r : ℝ) ≤ Real.sqrt (s : ℝ) := by
+  unfold distGe
+  rcases le_or_gt r 0 with h | h
+  · have : (r : ℝ) ≤ 0 := by exact_mod_cast h
+    exact ⟨fun _ => this.trans (Real.sqrt_nonneg _), fun _ => Or.inl h⟩
+  · have hr : (0 : ℝ) < (r : ℝ) := by exact_mod_cast h
+    rw [Real.le_sqrt' hr]
+    constructor
+    · rintro (h1 | h1)
+      · exact absurd h1 (not_le.mpr h)
+      · have : (r : ℝ) * (r : ℝ) ≤ (s : ℝ) := by exact_mod_cast h1
+        nlinarith
+    · intro h1
+      right
+      have : (r : ℝ) * (r : ℝ) ≤ (s : ℝ) := by nlinarith
+      exact_mod_cast this
+
+/-- `cosGe d c m` is `c·√m ≤ d` over the reals (`m = ‖n‖²‖step‖² ≥ 0`): the angle between normal and
+step is at most the reference angle -/
+theorem cosGe_iff_sqrt (d c m : ℚ) (hm : 0 ≤ m) : cosGe d c m ↔ (c : ℝ) * Real.sqrt (m : ℝ) ≤ (d : ℝ) := by
+  have hmR : (0 : ℝ) ≤ (m : ℝ) := by exact_mod_cast hm
+  have ht : 0 ≤ Real.sqrt (m : ℝ) := Real.sqrt_nonneg _
+  have ht2 : Real.sqrt (m : ℝ) * Real.sqrt (m : ℝ) = (m : ℝ) := Real.mul_self_sqrt hmR
+  set t := Real.sqrt (m : ℝ) with htdef
+  unfold cosGe
+  have castle : ∀ a b : ℚ, a ≤ b ↔ (a : ℝ) ≤ (b : ℝ) := fun a b => by exact_mod_cast Iff.rfl
+  have castlt : ∀ a b : ℚ, a < b ↔ (a : ℝ) < (b : ℝ) := fun a b => by exact_mod_cast Iff.rfl
+  rw [castle 0 d, castle c 0, castle (c * c * m) (d * d), castlt d 0, castlt c 0, castle (d * d) (c * c * m)]
+  push_cast
+  rcases le_or_gt (0 : ℝ) (d : ℝ) with hd | hd
+  · rcases le_or_gt (c : ℝ) 0 with hc | hc
+    · constructor
+      · intro _; nlinarith [mul_nonneg (neg_nonneg.mpr hc) ht]
+      · intro _; exact Or.inl ⟨hd, Or.inl hc⟩
+    · constructor
+      · rintro (⟨_, h | h⟩ | ⟨h, _⟩)
+        · exact absurd h (not_le.mpr hc)
+        · have hct : 0 ≤ (c : ℝ) * t := mul_nonneg hc.le ht
+          have : ((c : ℝ) * t) * ((c : ℝ) * t) ≤ (d : ℝ) * (d : ℝ) := by nlinarith
+          nlinarith
+        · exact absurd h (not_lt.mpr hd)
+      · intro h
+        left
+        refine ⟨hd, Or.inr ?_⟩
+        have hct : 0 ≤ (c : ℝ) * t := mul_nonneg hc.le ht
+        have : ((c : ℝ) * t) * ((c : ℝ) * t) ≤ (d : ℝ) * (d : ℝ) := by nlinarith
+        nlinarith
+  · rcases le_or_gt 0 (c : ℝ) with hc | hc
+    · constructor
+      · rintro (⟨h, _⟩ | ⟨_, h, _⟩)
+        · exact absurd h (not_le.mpr hd)
+        · exact absurd h (not_lt.mpr hc)
+      · intro h
+        have hct : 0 ≤ (c : ℝ) * t := mul_nonneg hc ht
+        linarith
+    · constructor
+      · rintro (⟨h, _⟩ | ⟨_, _, h⟩)
+        · exact absurd h (not_le.mpr hd)
+        · have hct : 0 ≤ -((c : ℝ) * t) := by nlinarith [mul_nonneg (neg_nonneg.mpr hc.le) ht]
+          have : (-(d : ℝ)) * (-(d : ℝ)) ≤ (-((c : ℝ) * t)) * (-((c : ℝ) * t)) := by nlinarith
+          nlinarith
+      · intro h
+        right
+        refine ⟨hd, hc, ?_⟩
+        have hct : 0 ≤ -((c : ℝ) * t) := by nlinarith [mul_nonneg (neg_nonneg.mpr hc.le) ht]
+        have : (-(d : ℝ)) * (-(d : ℝ)) ≤ (-((c : ℝ) * t)) * (-((c : ℝ) * t)) := by nlinarith
+        nlinarith
 
 end PolyplyVerif.Proofs.Restraints
